@@ -153,6 +153,8 @@ fn layout_slots(tier: Tier) -> Vec<usize> {
 }
 /// operations of the second family: those whose result can be stored (all but `panic`)
 const STORABLE_OPS: std::ops::Range<usize> = 1..5;
+const NOARG_SLOTS: [usize; 3] = [0, 2, 4];
+const NOARG_OPS: [usize; 2] = [1, 4];
 /// the second family uses no non-ASCII prefix (that dimension is exhausted by the first family)
 const PLAIN: Variant = Variant { k: 0, form: Form::Comment, ch: 'é' };
 
@@ -166,6 +168,8 @@ struct Builder<'a> {
     call_line: Vec<u32>,
     fail_line: u32,
     stmt_line: u32,
+    /// every callee takes no argument (it declares its `x` itself), so the call is the first instruction of its line
+    noarg: bool,
 }
 
 impl Builder<'_> {
@@ -233,6 +237,9 @@ impl Builder<'_> {
     }
     /// statements of level `i` into file `f` at indentation `ind`
     fn body(&mut self, i: usize, f: usize, ind: usize) {
+        if self.noarg && i > 0 {
+            self.push(f, ind, &format!("let x{i} = 1"));
+        }
         self.slot(i, 0, f, ind);
         self.push(f, ind, &format!("let a{i} = x{i} + 1"));
         self.slot(i, 1, f, ind);
@@ -240,16 +247,20 @@ impl Builder<'_> {
             let n = i + 1;
             match self.shape.levels[i].0 {
                 Kind::Lambda => {
-                    self.push(f, ind, &format!("let lam{n} = (x{n}: int) -> {{"));
+                    let params = if self.noarg { String::new() } else { format!("x{n}: int") };
+                    self.push(f, ind, &format!("let lam{n} = ({params}) -> {{"));
                     self.body(n, f, ind + 2);
                     self.push(f, ind, "}");
-                    self.call_line[i] = self.push(f, ind, &format!("let r{i} = lam{n}(a{i})"));
+                    let arg = if self.noarg { String::new() } else { format!("a{i}") };
+                    self.call_line[i] = self.push(f, ind, &format!("let r{i} = lam{n}({arg})"));
                 }
                 Kind::Fn => {
-                    self.call_line[i] = self.push(f, ind, &format!("let r{i} = f{n}(a{i})"));
+                    let arg = if self.noarg { String::new() } else { format!("a{i}") };
+                    self.call_line[i] = self.push(f, ind, &format!("let r{i} = f{n}({arg})"));
                 }
                 Kind::Method => {
-                    self.call_line[i] = self.push(f, ind, &format!("let r{i} = St{n}(0).m{n}(a{i})"));
+                    let arg = if self.noarg { String::new() } else { format!("a{i}") };
+                    self.call_line[i] = self.push(f, ind, &format!("let r{i} = St{n}(0).m{n}({arg})"));
                 }
             }
         } else {
@@ -265,7 +276,7 @@ impl Builder<'_> {
     }
 }
 
-fn build(shape: &Shape, fail_level: usize, fail_slot: usize, op: usize, lay: Lay, var: Variant) -> Built {
+fn build(shape: &Shape, fail_level: usize, fail_slot: usize, op: usize, lay: Lay, var: Variant, noarg: bool) -> Built {
     let d = shape.levels.len();
     let mut b = Builder {
         shape,
@@ -277,6 +288,7 @@ fn build(shape: &Shape, fail_level: usize, fail_slot: usize, op: usize, lay: Lay
         call_line: vec![0; d + 1],
         fail_line: 0,
         stmt_line: 0,
+        noarg,
     };
     let used: Vec<bool> = (0..FILES.len()).map(|f| f == 0 || shape.levels.iter().any(|l| l.1 == f)).collect();
     let body_ascii: String = std::iter::repeat_n('e', var.k.max(1)).collect();
@@ -304,7 +316,7 @@ fn build(shape: &Shape, fail_level: usize, fail_slot: usize, op: usize, lay: Lay
             match k {
                 Kind::Lambda => {}
                 Kind::Fn => {
-                    b.push(f, 0, &format!("fn f{lvl}(x{lvl}: int) -> int {{"));
+                    b.push(f, 0, &if noarg { format!("fn f{lvl}() -> int {{") } else { format!("fn f{lvl}(x{lvl}: int) -> int {{") });
                     b.body(lvl, f, 2);
                     b.push(f, 0, "}");
                 }
@@ -313,7 +325,7 @@ fn build(shape: &Shape, fail_level: usize, fail_slot: usize, op: usize, lay: Lay
                     b.push(f, 2, "v: int");
                     b.push(f, 0, "}");
                     b.push(f, 0, &format!("extend St{lvl} {{"));
-                    b.push(f, 2, &format!("fn m{lvl}(self, x{lvl}: int) -> int {{"));
+                    b.push(f, 2, &if noarg { format!("fn m{lvl}(self) -> int {{") } else { format!("fn m{lvl}(self, x{lvl}: int) -> int {{") });
                     b.body(lvl, f, 4);
                     b.push(f, 2, "}");
                     b.push(f, 0, "}");
@@ -374,7 +386,7 @@ fn tier_depth(tier: Tier) -> usize {
 /// first family: (level, slot, op, non-ASCII variant); second family: (level, slot, storable op, layout)
 fn cases_per_shape(s: &Shape, nvar: usize, nlay_slots: usize, nlay: usize) -> u64 {
     let levels = s.levels.len() + 1;
-    (levels * NSLOTS * OPS.len() * nvar + levels * nlay_slots * STORABLE_OPS.len() * nlay) as u64
+    (levels * NSLOTS * OPS.len() * nvar + levels * nlay_slots * STORABLE_OPS.len() * nlay + levels * NOARG_SLOTS.len() * NOARG_OPS.len()) as u64
 }
 
 impl Prop for C32 {
@@ -420,7 +432,7 @@ impl Prop for C32 {
                         out.describe_case(&case_text);
                         out.evaluations += 1;
                         out.nontrivial_text(&case_text);
-                        let b = build(shape, level, slot, op, Lay::OneLine, *var);
+                        let b = build(shape, level, slot, op, Lay::OneLine, *var, false);
                         run_one(out, &case_text, &b, OPS[op], Lay::OneLine, var.k, my);
                     }
                 }
@@ -442,9 +454,27 @@ impl Prop for C32 {
                         out.describe_case(&case_text);
                         out.evaluations += 1;
                         out.nontrivial_text(&case_text);
-                        let b = build(shape, level, slot, op, *lay, PLAIN);
+                        let b = build(shape, level, slot, op, *lay, PLAIN, false);
                         run_one(out, &case_text, &b, OPS[op], *lay, 0, my);
                     }
+                }
+            }
+        }
+        // third family: calls without arguments (the call is the first instruction of its source line)
+        for level in 0..=d {
+            for slot in NOARG_SLOTS {
+                for op in NOARG_OPS {
+                    let my = idx;
+                    idx += 1;
+                    if !out.begin_case(my) {
+                        continue;
+                    }
+                    let case_text = format!("C32 chain [{}] fail at level {level} slot {slot} op {} calls without arguments", shape_text(shape), OPS[op]);
+                    out.describe_case(&case_text);
+                    out.evaluations += 1;
+                    out.nontrivial_text(&case_text);
+                    let b = build(shape, level, slot, op, Lay::OneLine, PLAIN, true);
+                    run_one(out, &case_text, &b, OPS[op], Lay::OneLine, 0, my);
                 }
             }
         }
@@ -458,6 +488,7 @@ impl Prop for C32 {
              plus, for every level and the statement positions {:?} (numbered in the order above from 0), the storable failing operations {:?} x statement layouts {:?} in which the operator expression (always written on one line) stands on a later line than \
              the `let` / assignment that stores its result (right-hand side wrapped after `=`, wrapped with a comment line in between, block-valued right-hand side; assignment to a `var` declared on the line before): \
              the expected failing line is the line of the operator expression, not the line of the `let` / `w =`. \
+             plus, for every level, the statement positions {:?} and the operations array-oob and unwrap-none, the same chain with every call written without arguments (`let r = f()`; the callee declares its own x), so that the call is the first instruction of its source line. \
              Expected traceback computed by the generator from the line numbers it emitted: failing file:line + function name, then the call-site file:line + function name of every active call, innermost first; \
              for unwrap-none one leading prelude.abra/unwrap frame is required and its line is not asserted. Function names asserted: <main>, unqualified fn/method name, <lambda>. \
              Every case is a distinct program and counts as non-trivial (a runtime error below at least the top-level frame).",
@@ -467,7 +498,8 @@ impl Prop for C32 {
             variants(tier).iter().map(|v| format!("{}x{:?}{:?}", v.k, v.ch, v.form)).collect::<Vec<_>>(),
             layout_slots(tier),
             &OPS[STORABLE_OPS],
-            layouts(tier).iter().map(|l| l.name()).collect::<Vec<_>>()
+            layouts(tier).iter().map(|l| l.name()).collect::<Vec<_>>(),
+            NOARG_SLOTS
         )
     }
     fn assumptions(&self) -> Vec<String> {
